@@ -270,6 +270,29 @@ def rewrite_format(text, nth, log):
 
 def _apply_block(text, first_line, relpath, directives, tmpl_file, log, stub):
     """Return list of Line for the function text with insertions applied."""
+    # D19: `fn f(mut self, ..) { B }`  =>  `fn f(self, ..) { let mut _self = self; B[self := _self] }`
+    for d in directives:
+        if d['kind'] == 'mutself':
+            msk0 = lex.mask(text)
+            mm = re.search(r'\(\s*mut\s+self\b', msk0)
+            if not mm:
+                raise ExtractError('mutself: no `mut self` parameter')
+            mfn = re.search(r'\bfn\b', msk0)
+            bo = lex.find_at_depth0(msk0, mfn.end(), len(msk0), '{;')
+            bc = lex.match_bracket(msk0, bo)
+            body = text[bo + 1:bc]
+            bm = msk0[bo + 1:bc]
+            out = []
+            last = 0
+            for sm in re.finditer(r'\bself\b', bm):
+                out.append(body[last:sm.start()])
+                out.append('_self')
+                last = sm.end()
+            out.append(body[last:])
+            head = text[:bo + 1]
+            head = head[:mm.start()] + re.sub(r'mut\s+self', 'self', head[mm.start():], count=1)
+            text = head + ' let mut _self = self;' + ''.join(out) + text[bc:]
+            log.append(('D19', '`mut self` parameter rebound to a local `_self`', 0))
     # D14: `if C { ..; continue; } REST` directly inside a loop body  =>  `if C { .. } else { REST }`
     for d in directives:
         if d['kind'] == 'uncontinue':
@@ -529,6 +552,8 @@ def assemble(unit_name, repo=None):
                         rx, tail = _parse_regex_directive(r2, c2)
                         p2, kv2 = _kv(tail.split())
                         cur = {'kind': c2, 'regex': rx, 'nth': int(kv2.get('nth', 1)), 'lines': []}
+                    elif c2 == 'mutself':
+                        cur = {'kind': 'mutself', 'lines': []}
                     elif c2 == 'uncontinue':
                         cur = {'kind': 'uncontinue', 'lines': []}
                     elif c2 == 'bind_tail':
